@@ -578,6 +578,7 @@ class World:
         self.iter = 0
         self.activity = 0
         self.calls = 0
+        self.events: List[Any] = []
         self.harness_hang: Optional[str] = None
         self.hung_where: Optional[str] = None
         self.stalls: List[Dict[str, Any]] = []      # blocking-mode socket calls that met a really full / empty kernel buffer
@@ -683,6 +684,22 @@ class World:
             return self.global_fault_fn(ks, op)
         return None
 
+    def make_event_queue(self) -> Any:
+        """With --enable-events the executor is given an event queue, as Proxy.setup() would: a real EventQueue over an in-process
+        list-backed queue (what was published is kept in `self.events`)."""
+        if not getattr(self.flags, 'enable_events', False):
+            return None
+        from proxy.core.event import EventQueue
+        world = self
+
+        class _ListQueue:
+            def put(self, item: Any, *a: Any, **k: Any) -> None:
+                world.events.append(item)
+
+            def put_nowait(self, item: Any) -> None:
+                world.events.append(item)
+        return EventQueue(_ListQueue())     # type: ignore[arg-type]
+
     # -- selector-level faults (epoll_ctl can fail: ENOMEM, ENOSPC when max_user_watches is exceeded)
     selector_fault_fn: Optional[Callable[[str, int], Optional[str]]] = None
 
@@ -780,7 +797,7 @@ class World:
         global CURRENT
         from proxy.core.work.fd.local import LocalFdExecutor
         CURRENT = self
-        ex = LocalFdExecutor(iid='1', work_queue=StepQueue(self), flags=self.flags, event_queue=None)
+        ex = LocalFdExecutor(iid='1', work_queue=StepQueue(self), flags=self.flags, event_queue=self.make_event_queue())
         self.executor = ex
         if self.reaper_period is not None:
             # the reaper runs when tick * (select timeout + wait_timeout) >= cleanup_inactive_timeout; with the select
@@ -978,7 +995,7 @@ def _run_threaded(self: World, client_name: str) -> World:
         peer._send_some(None)
     conn, addr = self.accept_q.pop(0)
     work_klass = self.flags.work_klass
-    work = work_klass(work_klass.create(conn, addr), flags=self.flags, event_queue=None, upstream_conn_pool=None)
+    work = work_klass(work_klass.create(conn, addr), flags=self.flags, event_queue=self.make_event_queue(), upstream_conn_pool=None)
     self.executor = None
     self.threaded_work = work
     work.selector = SteppingSelector(work.selector, self)
@@ -1130,7 +1147,7 @@ def _run_remote(self: World) -> World:
 
     loop = asyncio.new_event_loop()
     asyncio.set_event_loop(loop)
-    ex = Stepped(iid='1', work_queue=child, flags=self.flags, event_queue=None)
+    ex = Stepped(iid='1', work_queue=child, flags=self.flags, event_queue=self.make_event_queue())
     ex._loop = loop
     self.executor = ex
     if self.reaper_period is not None:
